@@ -27,8 +27,8 @@ from .report import Obligation
 VERIF = os.path.dirname(os.path.dirname(os.path.abspath(__file__)))
 
 
-INV_NOTE = ('a STRUCTURAL loop invariant of the proof (one that describes how this particular loop works, not what it must achieve) '
-            'does not hold for this code, so the summary of that loop - and every other message about this function - is unreliable: '
+INV_NOTE = ('a STRUCTURAL part of the proof script (a loop invariant that describes how this particular loop works rather than what it must '
+            'achieve, or a hint assertion woven into the body) does not hold for this code, so every other message about this function is unreliable: '
             'the proof no longer fits the code (a re-implementation of the loop) or the loop is wrong; undecided here, the bounded '
             'units decide.  ')
 
@@ -38,14 +38,19 @@ def _only_structural(errs, unit):
     substrings of invariant text that describe the implementation of a loop rather than the abstraction it maintains).  A failing
     semantic invariant (abstract state preserved, value = spec function of the prefix, ...) is a violation like a failing postcondition."""
     pats = unit.get('structural_invariants', [])
-    inv = [e for e in errs if 'invariant not satisfied' in e]
-    if not inv:
-        return False
-    for e in inv:
-        code = ' '.join(m.group(1).strip() for m in re.finditer(r'^\s*\d+ \|(.*)$', e, re.M))
-        if not any(p in code for p in pats):
-            return False
-    return True
+    sem_asserts = unit.get('semantic_asserts', [])
+    def code_of(e):
+        return ' '.join(m.group(1).strip() for m in re.finditer(r'^\s*\d+ \|(.*)$', e, re.M))
+    real = [e for e in errs if e.startswith('error') and 'aborting due to' not in e]
+    inv = [e for e in real if 'invariant not satisfied' in e]
+    if inv:
+        return all(any(p in code_of(e) for p in pats) for e in inv)
+    # no invariant failed.  If the ONLY messages are failed `assert`s of proof hints (ghost text woven into the body to guide the
+    # solver; not statements of the contract), the proof script does not fit the code any more: undecided.  An assert that
+    # carries the contract itself (`semantic_asserts`) is a violation like a postcondition.
+    if real and all('assertion failed' in e for e in real):
+        return not any(any(p in code_of(e) for p in sem_asserts) for e in real)
+    return False
 
 
 class Unsupported(Exception):
